@@ -87,6 +87,10 @@ class LangGen:
             return ({'type': 'collect', 'lhs': l[0], 'rhs': rr[0]}, rr[1])
         if c == 'set':
             l = self.nav(t, depth - 1, allow_vars)
+            # a variable as the left operand (its value is the list the operator starts from: an evaluator that
+            # re-uses or extends that list in place shows only when the variable is used again from the same asset)
+            if allow_vars and self.vars_of(t) and r.random() < 0.5:
+                v = r.choice(sorted(self.vars_of(t))); l = ({'type': 'variable', 'name': v}, self.vars_of(t)[v][1])
             if not l: return None
             for _ in range(6):
                 rr = self.nav(t, depth - 1, allow_vars)
@@ -144,6 +148,9 @@ class LangGen:
             tgt, navi = t, None
         else:
             nv = self.nav(t, r.choice([0, 1, 1, 2, 3]))
+            if self.vars_of(t) and r.random() < 0.25 * self.k['vars']:
+                # the bare variable again: several steps of one asset use the same variable
+                v = r.choice(sorted(self.vars_of(t))); nv = ({'type': 'variable', 'name': v}, self.vars_of(t)[v][1])
             if nv is None: tgt, navi = t, None
             else: navi, tgt = nv
         steps = self.steps_of(tgt)
